@@ -6,7 +6,9 @@ from pathlib import Path
 V = Path("/verif")
 src = json.loads((V / "tools/manifest_src.json").read_text())
 for f in sorted((V / "tools/manifest.d").glob("*.json")) if (V / "tools/manifest.d").exists() else []:
-    src["claimed"].update(json.loads(f.read_text()))
+    for k, v in json.loads(f.read_text()).items():
+        if k in src.get("approved", []):          # only checks the coordinator has run and accepted
+            src["claimed"][k] = v
 props = [json.loads(l)["id"] for l in (V / "properties.jsonl").read_text().splitlines() if l.strip()]
 checks = []
 for pid in props:
